@@ -498,6 +498,13 @@ func (h *hist) step(line string) (out string) {
 				ss = append(ss, h.encU(o))
 			}
 			return "ok " + strings.Join(ss, " ")
+		case op == "spoly" && k == 'q':
+			r, err := bivariate.SPolynomial(h.bs[regNum(a0)], h.bs[regNum(a1)])
+			if err != nil {
+				return "err " + kindOf(err)
+			}
+			h.setB(dst, r)
+			return "ok " + h.showB(r)
 		case op == "quorem" && k == 'q':
 			var gs []*bivariate.Polynomial
 			for _, g := range t[2:] {
